@@ -82,6 +82,11 @@ def run(res, tier, seed):
         co = co_all[sc]
         lns = make_pass(rng, n, gaps=(n >= 12))
         residue = rng.randrange(5)
+        if chan == 1 and n >= 25:
+            # four lines missing right after a PRT reset line: two reset lines become neighbours in the array
+            j = n // 2
+            lns = lns[:j] + [x + 4 for x in lns[j:]]
+            residue = lns[j - 1] % 5
         if not all(any((x - residue) % 5 == k for x in lns) for k in range(5)):
             residue = lns[0] % 5      # the pass must contain a reset line and every thermometer (documented procedure)
         nbad = rng.choice([0, 0, 1, 3]) if n >= 25 else 0   # isolated: every thermometer keeps a majority of valid readings
